@@ -5,6 +5,7 @@ package main
 
 import (
 	"fmt"
+	"go/ast"
 	"go/token"
 	"go/types"
 	"sort"
@@ -344,6 +345,9 @@ func (c *Ctx) mergeStates(sts []*State, conds []string) *State {
 		t = c.def("alloc", "Int", t)
 	}
 	ns.alloc = t
+	if !sameEpoch {
+		c.epochAlloc[ns.epoch] = ns.alloc
+	}
 	return ns
 }
 
@@ -411,10 +415,9 @@ func (c *Ctx) val(fr *Frame, st *State, v ssa.Value) Val {
 		et := x.Type().(*types.Pointer).Elem()
 		c.ensureHeapSort(key, et)
 		if _, ok := st.heaps[key]; !ok {
-			if cv, ok := c.eng.globalInit(c, x); ok {
-				ik := fmt.Sprintf("%s|%d", key, st.epoch)
-				if _, have := c.initHeaps[ik]; !have {
-					c.initHeaps[ik] = c.def("glob_"+sanitize(x.Name()), c.sorts.sortOf(et), cv)
+			if _, have := c.constGlob[key]; !have {
+				if cv, ok := c.eng.globalInit(c, x); ok {
+					c.constGlob[key] = c.def("glob_"+sanitize(x.Name()), c.sorts.sortOf(et), cv)
 				}
 			}
 		}
@@ -500,7 +503,7 @@ func (c *Ctx) enterLoop(fr *Frame, li *loopInfo, st *State) {
 	if mod.all {
 		c.havocAll(st, true)
 		for k := range mod.keys {
-			if strings.HasPrefix(k, "L:") {
+			if _, known := c.heapSorts[k]; strings.HasPrefix(k, "L:") && known {
 				st.heaps[k] = c.decl("loopcell", c.heapSorts[k])
 			}
 		}
@@ -662,17 +665,162 @@ func (c *Ctx) callMods(fr *Frame, call *ssa.CallCommon, ms *modSet, depth int) {
 
 func (c *Ctx) contractMods(ct *Contract, ms *modSet) {
 	ms.allocs = true
+	var callee *ssa.Function
+	if !strings.Contains(ct.Key, ":") {
+		callee = c.eng.findFunc(ct.PkgPath, ct.Key)
+	}
 	for _, cl := range ct.byKind("modifies") {
 		for _, e := range cl.Exprs {
-			// we cannot resolve the key without types here; be conservative by
-			// type-directed resolution at the call site: mark all
-			_ = e
-			ms.all = true
+			keys, ok := c.modKeysOf(e, callee, ct)
+			if !ok {
+				ms.all = true
+				continue
+			}
+			for _, k := range keys {
+				ms.keys[k] = true
+			}
 		}
 	}
-	if len(ct.byKind("exits")) > 0 {
-		// exits may change state per exits_ensures; handled on the exceptional path
+}
+
+// modKeysOf resolves a modifies location to the heap keys (by type) it can
+// touch, without evaluating it: x.f -> objects of x's struct type, x[i] ->
+// element arrays of x's element type, all(x), heap(T).
+func (c *Ctx) modKeysOf(e ast.Expr, callee *ssa.Function, ct *Contract) ([]string, bool) {
+	pkg := c.eng.pkgByPath(ct.PkgPath)
+	var typeOf func(e ast.Expr) types.Type
+	typeOf = func(e ast.Expr) types.Type {
+		switch x := e.(type) {
+		case *ast.ParenExpr:
+			return typeOf(x.X)
+		case *ast.Ident:
+			if callee != nil {
+				for _, p := range callee.Params {
+					if p.Name() == x.Name {
+						return p.Type()
+					}
+				}
+			}
+			return nil
+		case *ast.StarExpr:
+			if t := typeOf(x.X); t != nil {
+				if pt, ok := t.Underlying().(*types.Pointer); ok {
+					return pt.Elem()
+				}
+			}
+			return nil
+		case *ast.SelectorExpr:
+			t := typeOf(x.X)
+			if t == nil {
+				return nil
+			}
+			p := pkg
+			if n, ok := derefNamed(t); ok && n.Obj().Pkg() != nil {
+				p = n.Obj().Pkg()
+			}
+			obj, _, _ := types.LookupFieldOrMethod(t, true, p, x.Sel.Name)
+			if v, ok := obj.(*types.Var); ok {
+				return v.Type()
+			}
+			return nil
+		case *ast.IndexExpr:
+			t := typeOf(x.X)
+			if t == nil {
+				return nil
+			}
+			switch u := t.Underlying().(type) {
+			case *types.Slice:
+				return u.Elem()
+			case *types.Array:
+				return u.Elem()
+			}
+			return nil
+		}
+		return nil
 	}
+	// key of the object that holds location e
+	var holder func(e ast.Expr) ([]string, bool)
+	holder = func(e ast.Expr) ([]string, bool) {
+		switch x := e.(type) {
+		case *ast.ParenExpr:
+			return holder(x.X)
+		case *ast.SelectorExpr:
+			t := typeOf(x.X)
+			if t == nil {
+				return nil, false
+			}
+			if pt, ok := t.Underlying().(*types.Pointer); ok {
+				// possibly through embedded pointers: include every struct type on the path
+				keys := []string{c.heapKeyFor(pt.Elem())}
+				p := pkg
+				if n, ok := derefNamed(t); ok && n.Obj().Pkg() != nil {
+					p = n.Obj().Pkg()
+				}
+				_, index, _ := types.LookupFieldOrMethod(t, true, p, x.Sel.Name)
+				cur := pt.Elem()
+				for _, i := range index[:max(0, len(index)-1)] {
+					st, ok := cur.Underlying().(*types.Struct)
+					if !ok {
+						break
+					}
+					ft := st.Field(i).Type()
+					if fp, ok := ft.Underlying().(*types.Pointer); ok {
+						keys = append(keys, c.heapKeyFor(fp.Elem()))
+						cur = fp.Elem()
+					} else {
+						cur = ft
+					}
+				}
+				return keys, true
+			}
+			return holder(x.X) // field of a struct value held somewhere
+		case *ast.IndexExpr:
+			t := typeOf(x.X)
+			if t == nil {
+				return nil, false
+			}
+			if sl, ok := t.Underlying().(*types.Slice); ok {
+				return []string{c.arrKeyFor(sl.Elem())}, true
+			}
+			return holder(x.X)
+		case *ast.StarExpr:
+			t := typeOf(x.X)
+			if t == nil {
+				return nil, false
+			}
+			if pt, ok := t.Underlying().(*types.Pointer); ok {
+				return []string{c.heapKeyFor(pt.Elem())}, true
+			}
+		}
+		return nil, false
+	}
+	if call, ok := e.(*ast.CallExpr); ok {
+		if id, ok := call.Fun.(*ast.Ident); ok && len(call.Args) <= 1 {
+			switch id.Name {
+			case "everything":
+				return nil, false
+			case "all":
+				t := typeOf(call.Args[0])
+				if t == nil {
+					return nil, false
+				}
+				switch u := t.Underlying().(type) {
+				case *types.Slice:
+					return []string{c.arrKeyFor(u.Elem())}, true
+				case *types.Pointer:
+					return []string{c.heapKeyFor(u.Elem())}, true
+				}
+				return nil, false
+			case "heap":
+				env := &SpecEnv{c: c, pkg: pkg}
+				if t := env.typeOf(call.Args[0]); t != nil {
+					return []string{c.heapKeyFor(t), c.arrKeyFor(t)}, true
+				}
+				return nil, false
+			}
+		}
+	}
+	return holder(e)
 }
 
 // escapes reports whether the address of a local Alloc flows anywhere other
@@ -888,6 +1036,7 @@ func (c *Ctx) execInstr(fr *Frame, b *ssa.BasicBlock, st *State, in ssa.Instruct
 			key := c.arrKeyFor(u.Elem())
 			c.ensureHeapSort(key, u.Elem())
 			c.rteOblige(fr, st, "index", x, c.inBounds(idx, fmt.Sprintf("(s_len %s)", xv.S)))
+			c.registerIdx(idx)
 			off := c.idxAdd(fmt.Sprintf("(s_off %s)", xv.S), idx)
 			offn := c.def("ix", c.sorts.idxSort(), off)
 			fr.vals[x] = Val{T: x.Type(), P: &Ptr{Key: key, Base: fmt.Sprintf("(s_arr %s)", xv.S), Path: []Sel{{IsIndex: true, Index: offn}}, ET: u.Elem()}}
@@ -1096,8 +1245,30 @@ func (c *Ctx) assumeLoaded(st *State, t types.Type, term string) {
 	if needsRange(t, c.mode, 0) {
 		c.assumeRange(st.reach, t, term, 0)
 	}
-	if _, ok := t.Underlying().(*types.Pointer); ok {
-		c.assume(st.reach, fmt.Sprintf("(< %s %s)", term, st.alloc))
+	c.assumeAllocated(st.reach, st.alloc, t, term, 0)
+}
+
+// assumeAllocated: every reference reachable by value from a loaded / incoming
+// value (pointers, backing arrays of slices, also inside structs) was allocated
+// before now, so it cannot alias an object allocated later.
+func (c *Ctx) assumeAllocated(guard, alloc string, t types.Type, term string, depth int) {
+	if depth > 2 {
+		return
+	}
+	switch u := t.Underlying().(type) {
+	case *types.Pointer:
+		c.assume(guard, fmt.Sprintf("(< %s %s)", term, alloc))
+	case *types.Slice:
+		c.assume(guard, fmt.Sprintf("(< (s_arr %s) %s)", term, alloc))
+	case *types.Struct:
+		info := c.sorts.info(t)
+		for i, ft := range info.ftypes {
+			switch ft.Underlying().(type) {
+			case *types.Pointer, *types.Slice, *types.Struct:
+				c.assumeAllocated(guard, alloc, ft, fmt.Sprintf("(%s %s)", info.fields[i], term), depth+1)
+			}
+		}
+		_ = u
 	}
 }
 
